@@ -49,6 +49,44 @@ func runC08(c *core.Ctx) {
 		})
 	}
 	c.Floor("C08/stored-value-is-fresh", 1)
+	// read-your-writes: a key present in dirtyData (including a pending delete, stored as an empty
+	// entry) is answered from dirtyData; the lookup never falls through to the trie, which still
+	// holds the value from before the write
+	if fn := anchorM(c, pkg, "TrackableDataTrie", "RetrieveValue"); fn != nil {
+		var found ssa.Value
+		core.Instrs(fn, func(in ssa.Instruction) {
+			if lk, ok := in.(*ssa.Lookup); ok && lk.CommaOk {
+				if _, f := core.FieldLoad(lk.X); f == dirty {
+					for _, r := range *lk.Referrers() {
+						if ex, ok := r.(*ssa.Extract); ok && ex.Index == 1 {
+							found = ex
+						}
+					}
+				}
+			}
+		})
+		if found == nil {
+			c.Fail("C08/dirty-entry-shadows-trie", "TrackableDataTrie.RetrieveValue", fn.Pos(), "RetrieveValue no longer consults dirtyData with a presence test")
+		} else {
+			// start on the edge where `found` is true; the trie must not be reachable from there
+			bad := ""
+			for _, b := range fn.Blocks {
+				ifi, ok := b.Instrs[len(b.Instrs)-1].(*ssa.If)
+				if !ok || ifi.Cond != found {
+					continue
+				}
+				q := core.PathQ{Fn: fn, FromBlk: b.Succs[0], Target: func(in ssa.Instruction, _ *ssa.BasicBlock) bool {
+					cc := core.CallOf(in)
+					return cc != nil && cc.IsInvoke() && cc.Method.Name() == "Get" && isRecvField(fn, cc.Value, "tr")
+				}}
+				if esc, p := q.Escape(); esc != nil {
+					bad = c.P.PathString(p)
+				}
+			}
+			c.Check(bad == "", "C08/dirty-entry-shadows-trie", "TrackableDataTrie.RetrieveValue", fn.Pos(), "a key found in dirtyData is never looked up in the trie",
+				"a key that is present in dirtyData can still be answered from the trie ("+bad+"): a deleted or overwritten key reads back its old value until the account is saved")
+		}
+	}
 	if fn := anchorM(c, pkg, "TrackableDataTrie", "SaveKeyValue"); fn != nil {
 		has := false
 		core.Instrs(fn, func(in ssa.Instruction) {
